@@ -3,6 +3,7 @@ import Casm.Proofs.StaticMatch
 import Casm.Proofs.SwitchPass
 import Casm.Props.C02
 import Casm.Proofs.SwitchAsm
+import Casm.Proofs.SwitchOutcome
 /-!
 # C08 — the two optimisation switches never change any result
 
@@ -305,6 +306,35 @@ theorem accepted_with_the_optimisation_is_accepted_without (opts : Opts) (fs : S
     ∃ out', assemble opts.staticOff fs roots = .ok out' ∧
       out'.bits = out.bits ∧ out'.spans = out.spans ∧ out'.symbols = out.symbols :=
   assemble_switch_success opts fs roots ho hmax hrel hS out h
+
+/-- **a stable pass leaves a fixed point of the guessing pass** (the one case in which the two
+    iterations are not in lockstep: the optimised first pass stable, every emitting item frozen) -/
+theorem stable_pass_leaves_a_fixed_point (st : Static) (first : Bool) (nodes : List AstNode) (hwf : NoClash nodes) (u : Uniq nodes)
+    (d0 d1 : Defs) (r1 : List String) (hok0 : NodesOK d0 nodes)
+    (h : resolveOnce st nodes first false d0 = .ok (d1, true, r1)) :
+    resolveOnce st nodes false false d1 = .ok (d1, true, []) :=
+  corner_resolveOnce st first nodes hwf u d0 d1 r1 hok0 h
+
+/-- **C08 for the static switch, at the level of the iteration**: for every budget of at least two
+    the two assemblers fail with the same messages or succeed with the same values and messages; only
+    the iteration count may differ -/
+theorem static_switch_same_outcome (H : Nat → Bool) (st : Static) (nodes : List AstNode) (d0 : Defs)
+    (f : FrontOK st nodes d0) (fs : FrontOKS st nodes d0 H) (ho : st.opts.optStatic = true) (hwf : NoClash nodes)
+    (u : Uniq nodes) (hok0 : NodesOK d0 nodes) (m : Nat) :
+    (resolveIterativelyN (st.withStatic false) nodes (m + 2) (d0.unfS H)).map dropK =
+      ((resolveIterativelyN st nodes (m + 2) d0).map (usFin H)).map dropK :=
+  resolveIterativelyN_switch_outcome H st nodes d0 f fs ho hwf u hok0 m
+
+/-- **C08 (static switch), end to end**: with `--debug-no-optimize-static` the assembler fails with
+    the same messages or succeeds with the same bits, spans and symbols, for every budget of at least
+    two (budget 1 is finding F29).  The three hypotheses are decidable statements about the input
+    (`FrontRel`: the two front ends agree up to marks; `frontOKSb`, `frontUniqb`: facts about the front
+    end's result); every correspondence run evaluates them on every program (`frel` requests). -/
+theorem the_static_switch_never_changes_the_outcome (opts : Opts) (fs : SrcFiles) (roots : List (List Char))
+    (ho : opts.optStatic = true) (hmax : 2 ≤ opts.maxIter) (hrel : FrontRel opts fs roots)
+    (hS : ∀ st nodes d0, frontEnd opts fs roots = .ok (st, nodes, d0) → frontOKSb st nodes d0 = true ∧ frontUniqb nodes d0 = true) :
+    (assemble opts.staticOff fs roots).map AsmOk.core = (assemble opts fs roots).map AsmOk.core :=
+  assemble_switch_outcome opts fs roots ho hmax hrel hS
 
 /-! non-vacuity: `ld {x} => 0x10 @ x`8`; `ld 5` is statically known, `ld lbl` is not (even if a
     statically known constant is called `x`: finding F30) -/
